@@ -101,6 +101,7 @@ type op struct {
 	Key   int
 	Steps int           // whole ticks
 	Frac  time.Duration // extra delay below one interval
+	DP    *drainPlan    // opDrain only: for which deliveries the function passed to Drain panics (drainpanic_test.go)
 }
 
 func (o op) String() string {
@@ -114,6 +115,9 @@ func (o op) String() string {
 	case opTick:
 		return "Tick"
 	default:
+		if o.DP != nil {
+			return "Drain[" + o.DP.String() + "]"
+		}
 		return "Drain"
 	}
 }
@@ -161,6 +165,11 @@ type runner struct {
 	rearms   int64
 	drained  map[int]bool // keys delivered by an earlier (mid-sequence) Drain
 	drains   int64
+	plan     *drainPlan // plan of the next Drain (nil: the drain function never panics)
+	dlog     []string   // what each planned Drain did (witness)
+	dstat    drainStats
+	stopOnce sync.Once
+	parked   bool // the wheel's goroutine was found parked for ever (drainpanic_test.go); the wheel is stopped
 }
 
 var (
@@ -352,6 +361,9 @@ func (r *runner) witness(extra string) map[string]any {
 		w["callback_script"] = sc
 		w["callback_budget"] = cbBudget
 	}
+	if len(r.dlog) > 0 {
+		w["drains_whose_function_panics"] = r.dlog
+	}
 	if len(poisonKeys) > 0 {
 		var pk []int
 		for k := range poisonKeys {
@@ -440,6 +452,7 @@ func (r *runner) apply(o op) {
 			}
 			r.drained[k] = true
 		}
+		r.plan = o.DP
 		r.drainDeliver()
 		r.drains++
 	}
@@ -548,6 +561,11 @@ func (r *runner) drain() {
 	if !r.drainDeliver() {
 		return
 	}
+	if len(r.model) > 0 {
+		// the function passed to Drain has set timers: they fire at their ticks, nothing else does
+		r.flush()
+		return
+	}
 	for i := 0; i < 2*r.n+2; i++ {
 		r.tk.tick(r.sync)
 		r.sync()
@@ -560,26 +578,109 @@ func (r *runner) drain() {
 }
 
 // drainDeliver calls Drain and checks that exactly the pending timers are delivered, once each,
-// with their latest values; the model is empty afterwards.
+// with their latest values; the model is empty afterwards. A delivery is the CALL of the drain
+// function with that key/value: the function records it and only then panics if the plan of this
+// Drain says so (r.plan, see drainpanic_test.go) - go-zero must hand every other pending timer to
+// the function all the same, and the wheel must go on serving operations.
 func (r *runner) drainDeliver() bool {
 	var mu sync.Mutex
 	var got []fired
+	plan := r.plan
+	r.plan = nil
+	boom := plan.resolve(r.model)
+	again := plan.rearm(r.model)
+	type reset struct {
+		val, steps int
+		err        error
+	}
+	resets := map[int]*reset{}
+	arrival, panics, closed := 0, 0, false
 	if err := r.tw.Drain(func(k, v any) {
 		mu.Lock()
-		if k.(int) < wildBase {
-			got = append(got, fired{key: k.(int), val: v.(int)})
+		if closed { // the verdict on this Drain is in (deadlock, wheel stopped): the unwinding calls are not part of it
+			mu.Unlock()
+			return
+		}
+		idx := arrival
+		arrival++
+		key := k.(int)
+		if key < wildBase {
+			got = append(got, fired{key: key, val: v.(int)})
+		}
+		bang := boom != nil && boom(key, idx)
+		if bang {
+			panics++
+		}
+		var rs *reset
+		if again != nil {
+			if st := again(key, idx); st > 0 {
+				rs = &reset{val: r.newVal(), steps: st}
+				resets[key] = rs
+			}
 		}
 		mu.Unlock()
+		if rs != nil {
+			// the function operates on the wheel that is being drained (the cleaner's clean() does)
+			err := r.tw.SetTimer(key, rs.val, time.Duration(rs.steps)*interval)
+			mu.Lock()
+			rs.err = err
+			mu.Unlock()
+		}
+		if bang {
+			kit.Obs("drain_fn_panics", 1)
+			panic("c12: poisoned drain callback")
+		}
 	}); err != nil {
 		r.c.Viol("C12/api-error/drain", err.Error(), r.witness(""))
 		return false
 	}
-	r.sync()
-	if !quiesce(r.baseline) {
+	// the loop is back in its select only when drainAll has returned; if it never does - the
+	// wheel's goroutine parked in the drain's task runner with nobody left to free a slot, or
+	// waiting for workers that wait for the wheel - that is decided from the goroutine dump
+	// (state), the wheel is stopped and the sync returns
+	dl, ok := settleWatched(r.scope(), r.baseline, r.sync, r.stop)
+	if dl == nil && !ok {
 		r.c.Inconclusive("drain goroutines did not finish")
 	}
 	mu.Lock()
 	defer mu.Unlock()
+	closed = true
+	if plan != nil {
+		r.dlog = append(r.dlog, fmt.Sprintf("%s: %d pending, %d calls of the drain function, %d of them panicked, %d set their key again", plan, len(r.model), arrival, panics, len(resets)))
+		r.dstat.add(plan, len(r.model), panics)
+		r.dstat.addRe(len(resets))
+	}
+	if dl != nil {
+		r.parked = true
+		missing := 0
+		seen := map[int]bool{}
+		for _, f := range got {
+			seen[f.key] = true
+		}
+		for k := range r.model {
+			if !seen[k] {
+				missing++
+			}
+		}
+		key, how := deadlockKey(dl)
+		w := r.witness(fmt.Sprintf("%d of %d pending timers never delivered; %s", missing, len(r.model), how))
+		w["goroutine_dump"] = dl.Dump
+		r.c.Viol(key, fmt.Sprintf("Drain never completes: after %d calls of the drain function (%d panicked, %d called SetTimer on the wheel) %s; %d pending timers were never delivered and the wheel serves no further operation",
+			arrival, panics, len(resets), how, missing), w)
+		r.model = map[int]*mtimer{}
+		if dl.Kind != "slots-lost" {
+			// the wheel has been stopped: the operations the workers are parked in return ErrClosed and
+			// the drain unwinds (its remaining calls are ignored: closed). Wait for that - or for the
+			// state in which it never will (slots lost on the way: those goroutines join the baseline)
+			mu.Unlock()
+			ok, d2 := quiesceRunner(dlScope{}, procBaseline)
+			mu.Lock()
+			if !ok && d2 == nil {
+				r.c.Inconclusive("the goroutines of a stopped wheel did not finish")
+			}
+		}
+		return false
+	}
 	seen := map[int]int{}
 	for _, f := range got {
 		seen[f.key]++
@@ -592,18 +693,33 @@ func (r *runner) drainDeliver() bool {
 	}
 	for k := range r.model {
 		if seen[k] == 0 {
-			r.c.Viol("C12/drain/missing", fmt.Sprintf("Drain did not deliver pending k%d", k), r.witness(""))
+			w := r.witness(fmt.Sprintf("%d calls of the drain function; goroutines now %d, quiescent at %d", arrival, runtime.NumGoroutine(), r.baseline))
+			if !r.c.Violated() {
+				w["goroutine_dump_at_verdict"] = allStacks()
+			}
+			r.c.Viol("C12/drain/missing", fmt.Sprintf("Drain did not deliver pending k%d", k), w)
 		} else if seen[k] > 1 {
 			r.c.Viol("C12/drain/duplicate", fmt.Sprintf("Drain delivered k%d %d times", k, seen[k]), r.witness(""))
 		}
 	}
 	r.c.Obs("drained", int64(len(got)))
 	r.model = map[int]*mtimer{}
+	// timers the drain function has set: new timers like any other, armed at the current tick
+	// (every pending timer was taken off the wheel before the function was called for the first one)
+	for k, rs := range resets {
+		if rs.err != nil {
+			r.c.Viol("C12/api-error/drain-fn-set", fmt.Sprintf("SetTimer(k%d) issued by the function passed to Drain returned %v", k, rs.err), r.witness(""))
+			continue
+		}
+		r.model[k] = &mtimer{val: rs.val, due: r.ticks + rs.steps, armedAt: r.ticks, lastOp: "set-from-drain-fn", rel: "-"}
+		delete(r.drained, k)
+		r.cbOps++
+	}
 	return true
 }
 
 func (r *runner) stop() {
-	r.tw.Stop()
+	r.stopOnce.Do(r.tw.Stop)
 }
 
 func runSeq(c *kit.Case, n int, seq []op, drain bool) {
@@ -701,6 +817,8 @@ func TestVerifC12(t *testing.T) {
 	runtime.Gosched()
 	time.Sleep(10 * time.Millisecond)
 	procBaseline = runtime.NumGoroutine()
+
+	escapeFamily(t) // drainpanic_test.go; first on purpose
 
 	// ---- bounded-exhaustive: every sequence of exactly L ops (shorter ones are prefixes'
 	// behaviours and are covered because each sequence is flushed after its last op)
@@ -849,6 +967,7 @@ func TestVerifC12(t *testing.T) {
 	})
 
 	scriptedExtFamilies(t)
+	drainPanicFamilies(t)
 	realFamilies(t)
 	consumerFamilies(t) // last: every cache leaves goroutines behind that join the baseline
 	kit.End()
